@@ -265,3 +265,36 @@ def positional_args(cfg, nid, call):
         else:
             out.append(a)
     return out
+
+
+def mapping_stores(fn):
+    """(statement, value expression) for every way a function stores a value into a mapping: `d[k] = v`, `d.update({k: v})`,
+    `d.update((k, v) for ..)` / a list of pairs, `d |= {..}`, `d.setdefault(k, v)`, `d = {k: v for ..}` and dict literals
+    assigned to a name. The value expression is the `v` part (for comprehensions: the element's value with the loop variables
+    left as they are)."""
+    out = []
+
+    def from_iterable(st, e):
+        if isinstance(e, ast.Dict):
+            out.extend((st, v) for k, v in zip(e.keys, e.values) if k is not None)
+        elif isinstance(e, ast.DictComp):
+            out.append((st, e.value))
+        elif isinstance(e, (ast.GeneratorExp, ast.ListComp)) and isinstance(e.elt, ast.Tuple) and len(e.elt.elts) == 2:
+            out.append((st, e.elt.elts[1]))
+        elif isinstance(e, (ast.List, ast.Tuple)):
+            out.extend((st, x.elts[1]) for x in e.elts if isinstance(x, ast.Tuple) and len(x.elts) == 2)
+    for st in ast.walk(fn):
+        if isinstance(st, ast.Assign):
+            if isinstance(st.targets[0], ast.Subscript):
+                out.append((st, st.value))
+            elif isinstance(st.targets[0], ast.Name) and isinstance(st.value, (ast.Dict, ast.DictComp)):
+                from_iterable(st, st.value)
+        elif isinstance(st, ast.AugAssign) and isinstance(st.op, ast.BitOr):
+            from_iterable(st, st.value)
+        elif isinstance(st, ast.Expr) and isinstance(st.value, ast.Call) and isinstance(st.value.func, ast.Attribute):
+            c = st.value
+            if c.func.attr == 'update' and c.args:
+                from_iterable(st, c.args[0])
+            elif c.func.attr == 'setdefault' and len(c.args) == 2:
+                out.append((st, c.args[1]))
+    return out
